@@ -90,7 +90,9 @@ def E1(m, R):
             continue
         pv = norm(payload) if payload is not None else None
         wv = norm(w.value)
-        ok = pv == 'str(%s)' % wv or (pv is not None and re.match(r'^str\((\w+)\)$', pv) and wv == '%s.%s' % (re.match(r'^str\((\w+)\)$', pv).group(1), ro.WRAPPED))
+        # str.__new__(cls, X) renders X itself, so X and str(X) are the same payload
+        pvx = re.match(r'^str\((.+)\)$', pv).group(1) if (pv and re.match(r'^str\((.+)\)$', pv)) else pv
+        ok = pvx == wv or (pvx is not None and re.match(r'^\w+$', pvx) and wv == '%s.%s' % (pvx, ro.WRAPPED))
         if not ok:
             problems.append('payload %s but wrapped object %s: the str payload is not the rendering of the wrapped object' % (pv, wv))
     # every return returns an instance created above
